@@ -123,13 +123,18 @@ func runC09(c C09Case, tolerate bool) *fOutcome {
 	curTol := route.tol()
 	variant := ""
 
-	issue := func(step int, req FReq, ts int64, nonce string, record bool) (*verifkit.Failure, bool) {
+	// every request that reaches the nonce cache sweeps expired entries: from then on a cache cannot
+	// know those nonces any more (this is what the known finding is about)
+	markForgotten := func(except string) {
 		for k, f := range first {
-			if k != nonce && !f.forgotten && w.clk.Now().After(f.keepUntil) {
+			if k != except && !f.forgotten && w.clk.Now().After(f.keepUntil) {
 				f.forgotten = true
 				first[k] = f
 			}
 		}
+	}
+	issue := func(step int, req FReq, ts int64, nonce string, record bool) (*verifkit.Failure, bool) {
+		markForgotten(nonce)
 		rec := serve(w.ingress, req)
 		ok := rec.Code == 202
 		if record {
@@ -225,6 +230,7 @@ func runC09(c C09Case, tolerate bool) *fOutcome {
 			o := sent[s.Ref%len(sent)]
 			a := AuthReq{Route: 0, Muts: []string{"sig-flipbit"}, Body: []byte("x")}
 			req := buildAuthReq(routes, a, now, o.nonce)
+			markForgotten(o.nonce)
 			rec := serve(w.ingress, req)
 			if rec.Code == 202 {
 				out.Failure = ffail("C08,C09", "bad-signature-accepted", i, "request with a flipped signature accepted")
@@ -309,6 +315,7 @@ func runC09(c C09Case, tolerate bool) *fOutcome {
 			a := AuthReq{Route: 0, TsOffS: s.TsOffS, Body: []byte("burst")}
 			req := buildAuthReq(routes, a, now, nonce)
 			ts := now.Add(time.Duration(s.TsOffS) * time.Second).Unix()
+			markForgotten(nonce)
 			var wg sync.WaitGroup
 			codes := make([]int, s.G)
 			start := make(chan struct{})
